@@ -59,6 +59,11 @@ def gen_plan(seed, i, tier):
             shapes.append(s)
         init = {'settle': True, 'builder': {'version': ver, 'salt': rng.below(1 << 30), 'nodes': rng.below(5), 'shapes': shapes}}
         hist.maybe_attach(rng, init, 0.25, len(shapes))
+        if rng.chance(0.08):
+            # the object loaded a file as terrain before the model was built in it, and the model is converted as built (no reload in between)
+            init['prior_terrain_load'] = rng.choice(['in/Static_SE', 'in/Animated_LE'])
+            init['settle'] = False
+            init.pop('attach', None)
 
     unobserved = rng.chance(0.4)
 
